@@ -575,14 +575,69 @@ func fingerprint(fc *fontCase) uint64 {
 	return stats.Hash(parts...)
 }
 
+// callDenseGlyph is a long charstring that does almost nothing but call
+// small subroutines: 0 0 rmoveto {callsubr|callgsubr}*n endchar with 50 to
+// 1500 calls of 1-3 subroutines "dx dy rlineto" (a staircase).  Real
+// subroutinised fonts look like this; the generated programs above call a
+// handful of subroutines per glyph.
+func callDenseGlyph(t *rapid.T, nFD int) glyphCase {
+	num := func(v float64) tok { return tok{kind: tNum, v: v, enc: reft2.EncAuto} }
+	p := &program{feat: map[string]bool{"call-dense": true}}
+	var subs []*body
+	for i := rapid.IntRange(1, 3).Draw(t, "denseSubrs"); i > 0; i-- {
+		b := &body{global: rapid.Bool().Draw(t, "denseGlobal")}
+		for k := rapid.IntRange(1, 3).Draw(t, "denseLines"); k > 0; k-- {
+			b.toks = append(b.toks, num(float64(rapid.IntRange(-9, 9).Draw(t, "dx"))), num(float64(rapid.IntRange(-9, 9).Draw(t, "dy"))))
+		}
+		b.toks = append(b.toks, tok{kind: tOp, op: reft2.OpRLineTo})
+		subs = append(subs, b)
+	}
+	p.bodies = subs
+	main := &body{index: -1}
+	main.toks = append(main.toks, num(0), num(0), tok{kind: tOp, op: reft2.OpRMoveTo})
+	n := rapid.SampledFrom([]int{50, 200, 530, 600, 1000, 1500}).Draw(t, "denseCalls")
+	for i := 0; i < n; i++ {
+		main.toks = append(main.toks, tok{kind: tCall, sub: subs[i%len(subs)]})
+	}
+	main.toks = append(main.toks, tok{kind: tOp, op: reft2.OpEndChar})
+	p.main = main
+	fd := 0
+	if nFD > 1 {
+		fd = rapid.IntRange(0, nFD-1).Draw(t, "denseFD")
+	}
+	return glyphCase{prog: p, fd: fd}
+}
+
 func TestC05Conform(t *testing.T) {
 	rapid.Check(t, func(t *rapid.T) {
 		fc := genFont(t, 4)
 		for _, g := range fc.glyphs {
 			addSubrs(t, g.prog, subrPlan{maxLocal: 20, maxGlobal: 20})
 		}
+		var extra []string
+		if len(fc.fds) >= 2 && rapid.Bool().Draw(t, "sameProgramOtherFD") {
+			// byte-identical charstrings under different Font DICTs: width
+			// defaults and nominal widths come from the glyph's own FD
+			var plain []int
+			for i, g := range fc.glyphs {
+				if len(g.prog.bodies) == 0 {
+					plain = append(plain, i)
+				}
+			}
+			if len(plain) > 0 {
+				src := fc.glyphs[rapid.SampledFrom(plain).Draw(t, "dupGlyph")]
+				fd := (src.fd + rapid.IntRange(1, len(fc.fds)-1).Draw(t, "dupFDShift")) % len(fc.fds)
+				fc.glyphs = append(fc.glyphs, glyphCase{prog: src.prog, fd: fd})
+				extra = append(extra, "same-charstring-in-two-fds")
+			}
+		}
+		if rapid.IntRange(0, 7).Draw(t, "callDense") == 0 {
+			fc.glyphs = append(fc.glyphs, callDenseGlyph(t, len(fc.fds)))
+			extra = append(extra, "call-dense-charstring")
+		}
 		fc.finish(t)
 		labels, nt, skip, fail := checkFont(fc)
+		labels = append(labels, extra...)
 		if skip != "" {
 			stats.Label("conform", skip)
 			return
